@@ -154,8 +154,18 @@ def show_term(term):
     return '%s(%s)' % (op, show_term(term[1]))
 
 
+def root_seed(term):
+    while term[0] != 'seed':
+        term = term[1]
+    return term[1]
+
+
 def successors(term, sig, partners):
     """Every transition of the menu from this state: yields successor terms."""
+    # a state is also combined with the very seed it was derived from (the same parameter objects on both sides)
+    own = root_seed(term)
+    if term[0] != 'seed' and own not in partners:
+        partners = list(partners) + [own]
     for p in partners:
         pt = ('seed', p)
         yield ('merge', term, pt)
